@@ -129,8 +129,9 @@ double BIAS(dvector *ytrue, dvector *ypred)
       continue;
     }
     else{
-      sum_yi+=(ypred->data[i]*(ytrue->data[i]-yavg));
-      sum_xi+=(ytrue->data[i]*(ytrue->data[i]-yavg));
+      /* centre both factors: the uncentred products lose (level/spread)^2 digits */
+      sum_yi+=((ypred->data[i]-yavg)*(ytrue->data[i]-yavg));
+      sum_xi+=((ytrue->data[i]-yavg)*(ytrue->data[i]-yavg));
     }
   }
   /*sum_yi/sum_xi = m */
